@@ -7,6 +7,7 @@ from .. import expr as X
 from .. import facts as F
 from .. import rules as R
 from ..core import VERIF
+from ..mir import span_loc
 
 
 def r1(ctx):
@@ -344,6 +345,47 @@ def r7(ctx, rule="C16.R7"):
             ctx.ok(rule, "choice-root-count", detail)
 
 
+def r8(ctx):
+    rule = "C16.R8"
+    ctx.rule(rule, "T6 a component's own tag is its explicit tag: proc_macro::into_asn, which rebuilds the model of every `#[asn(..)]` "
+                   "field, takes the field's `tag` from the attribute's explicit tag(..) only; the tag a `complex(Name, tag(X))` "
+                   "reference mentions belongs to the referenced type and stays inside the TypeReference (falling back to the "
+                   "explicit tag) - merged into the field it makes an untagged list look explicitly tagged, automatic tags are no "
+                   "longer assigned and a SET is ordered by the referenced types' tags")
+    P = ctx.program()
+    bs = [b for b in P.find("asn1rs_model", "proc_macro::into_asn") if b.def_kind == "Fn"]
+    if len(bs) != 1:
+        ctx.fail(rule, "anchor-lost:proc_macro::into_asn", "matched %d bodies" % len(bs))
+        return
+    b = bs[0]
+    O = X.Origins(b, P)
+    pn = b.param_names()
+    ap = [i for i, n in pn.items() if n == "asn"]
+    found = 0
+    for bb, j, st in b.all_statements():
+        if st["k"] == "assign" and st["rv"]["k"] == "agg" and st["rv"].get("ak") == "adt":
+            flds = {n: F.rd(R.positional(O.operand(o, bb, j))) for n, o in zip(st["rv"]["fields"], st["rv"]["ops"])}
+            if st["rv"]["adt"].endswith("asn::Asn") and "tag" in flds and ap:
+                found += 1
+                want = ("mut($%d).tag" % ap[0], "$%d.tag" % ap[0])
+                detail = {"built": "Asn", "tag": flds["tag"][:160]}
+                if flds["tag"] not in want:
+                    ctx.fail(rule, "into_asn#field-tag", "the field's own tag is `%s`, not the attribute's explicit tag" % flds["tag"][:100],
+                             span_loc(st["sp"]), detail)
+                else:
+                    ctx.ok(rule, "into_asn#field-tag", detail)
+            if st["rv"]["adt"].endswith("asn::Type") and st["rv"].get("variant") == "TypeReference" and len(st["rv"]["ops"]) == 2 and ap:
+                found += 1
+                t = flds.get("1", "")
+                detail = {"built": "Type::TypeReference", "tag": t[:200]}
+                if not (t.startswith("Option::or(") and "as TypeReference).1" in t.split(",")[0] and t.rstrip(")").endswith(".tag")):
+                    ctx.fail(rule, "into_asn#reference-tag", "the tag kept inside the TypeReference is `%s`, not `reference tag or else the "
+                                                             "explicit tag`" % t[:100], span_loc(st["sp"]), detail)
+                else:
+                    ctx.ok(rule, "into_asn#reference-tag", detail)
+    ctx.floor(rule, found, "C16.R8.aggregates")
+
+
 def run(ctx):
     r1(ctx)
     r2_r3(ctx)
@@ -351,3 +393,4 @@ def run(ctx):
     r5(ctx)
     r6(ctx)
     r7(ctx)
+    r8(ctx)
